@@ -509,7 +509,7 @@ def _policy(F, ctx, node_name, side, pol, n_edges, n_answers):
 def fan(props=("C03", "C08", "C10"), n_src=2, n_out=1, n_items=2, w=1, blocking=True, src_blocking=True, in_kind="buffer", out_kind="buffer",
         in_cap=2, out_cap=1, in_sel="FIRST_AVAILABLE", out_sel="FIRST_AVAILABLE", sym=("iat", "pd"), per_item_pd=False, until=None,
         out_delay="sym", in_delay=0, delay_kind="callable", setup=0, twin=False, same_iat=False, stats=False, src_out_sel=0, iat_lo=0.5,
-        second_machine=False, conv_kw=None, T=None):
+        second_machine=False, conv_kw=None, T=None, sink_fanin=False):
     def fn(ctx):
         from factorysimpy.nodes.source import Source
         from factorysimpy.nodes.machine import Machine
@@ -555,8 +555,10 @@ def fan(props=("C03", "C08", "C10"), n_src=2, n_out=1, n_items=2, w=1, blocking=
             e.connect(s, m)
         sinks = []
         for j in range(n_out):
-            k = F.add_node(Sink(env, f"K{j}"))
-            sinks.append(k)
+            # sink_fanin: one sink collects from every out-edge
+            k = sinks[0] if (sink_fanin and sinks) else F.add_node(Sink(env, f"K{j}"))
+            if k not in sinks:
+                sinks.append(k)
             e = _edge(F, out_kind, f"OUT{j}", out_cap, od, **ckw)
             if second_machine and j == 0:
                 # a second machine behind the first out-edge: M -> OUT0 -> M2 -> TAIL -> K0
@@ -907,6 +909,47 @@ def selftest(T=40, twin=False):
         ctx.hit("selftest-row")
         ctx.log("stats", m.stats["num_item_processed"], m.stats["num_item_discarded"], snk.stats["num_item_received"], src.stats["num_item_generated"],
                 src.stats["num_item_discarded"], tuple(tot[k] for k in sorted(tot)), tuple(m.time_per_work_occupancy), snk.stats["total_cycle_time"])
+        ctx.hit("complete")
+        if twin:
+            ctx.fail("TWIN:reached-end")
+    return fn
+
+
+
+# ---------------------------------------------------------------------------------------------
+# srcfan:  Source(FIRST_AVAILABLE or policy, 2 out-edges) -> OUT_j (capacity 1, symbolic delays) -> Sink_j
+
+
+def srcfan(props=("C15", "C03", "C10"), n_items=4, n_out=2, src_sel="FIRST_AVAILABLE", blocking=True, twin=False, sink_fanin=False):
+    def fn(ctx):
+        from factorysimpy.nodes.source import Source
+        from factorysimpy.nodes.sink import Sink
+        F = Factory(ctx, props)
+        env = F.env
+        F.edge_delays = {}
+        F.sel_answers = {}
+        F.sel_moves = {}
+        F.routing = {}
+        F.last_out_choice = {}
+        F.src_gaps = {}
+        F.discards = lambda n: n.stats.get("num_item_discarded", 0)
+        iat = ctx.real("iat", 0.25, 2)
+        ods = [ctx.real("od", 0, 3) for _ in range(n_out)]
+        gaps = [iat] * n_items
+        F.src_gaps["S0"] = gaps
+        src = F.add_node(Source(env, "S0", inter_arrival_time=F.delay_source("S0", gaps, "generator"), blocking=blocking,
+                                out_edge_selection=_policy(F, ctx, "S0", "out", src_sel, n_out, n_items)))
+        sinks = []
+        for j in range(n_out):
+            k = sinks[0] if (sink_fanin and sinks) else F.add_node(Sink(env, f"K{j}"))
+            if k not in sinks:
+                sinks.append(k)
+            e = _edge(F, "buffer", f"OUT{j}", 1, ods[j])
+            e.connect(src, k)
+        install(F)
+        F.run(until=None)
+        finish(F, None)
+        ctx.log("recv", tuple(k.stats["num_item_received"] for k in sinks))
         ctx.hit("complete")
         if twin:
             ctx.fail("TWIN:reached-end")
